@@ -302,10 +302,14 @@ pub fn plan(seed: u64, tier: Tier) -> Plan {
         let main = tier == Tier::Thorough || ci == rot;
         let lmax = if main { tier.pick(6, 12) } else { 3 };
         let gmax = if main { tier.pick(17, 33) } else { 4 };
-        let mut extra = vec![];
-        if tier == Tier::Thorough {
-            extra = vec![31usize, 32, 33, 64];
-        }
+        // list lengths around the shift-width boundaries (1 << |L| on 32/64-bit words)
+        let extra: Vec<usize> = if tier == Tier::Thorough {
+            vec![31usize, 32, 33, 63, 64, 65, 66, 96, 128]
+        } else if main {
+            vec![31usize, 32, 33, 63, 64, 65, 128]
+        } else {
+            vec![32usize, 64]
+        };
         let mut lens: Vec<usize> = (0..=lmax).collect();
         lens.extend(extra.iter());
         for g in 0..=gmax {
@@ -313,6 +317,10 @@ pub fn plan(seed: u64, tier: Tier) -> Plan {
                 for nr in &lens {
                     // huge lists only against a few circuit sizes
                     if (*nl > 12 || *nr > 12) && !(g == 0 || g == 1 || g == 8) {
+                        continue;
+                    }
+                    // long x long pairs: the diagonal and the extremes are enough
+                    if *nl > 12 && *nr > 12 && nl != nr && !(*nl == 128 || *nr == 128) && tier == Tier::Quick {
                         continue;
                     }
                     let (n1, n2) = if g % 3 == 2 && g > 1 { (g / 2, g - g / 2) } else { (g, 0) };
